@@ -306,10 +306,13 @@ def check_integral(prog: Program, res: Result, ig, rule: str) -> None:
 
 
 def check(prog: Program, res: Result) -> None:
+    from . import _batch
+    _batch.check_per_sample_lists(prog, res, "C06-split", ["sleap_nn.inference.bottomup:BottomUpInferenceModel._generate_cms_peaks"])
     check_rough(prog, res)
     check_refine(prog, res)
     from . import _wire
     _wire.check_peak_wiring(prog, res, "C06-wire")
+    _wire.check_numeric_hygiene(prog, res, "C06-wire")
     from . import c12
     res.borrow(c12.check_split, "C06-split", prog)
     res.borrow(c12.check_topk, "C06-split", prog)   # the max_instances selection keeps coordinates and values of the same peaks
